@@ -16,7 +16,7 @@ macro_rules! impl_buffered_source {
     ($($lf:lifetime, $reader:tt, $async:ident, $await:ident)?) => {
         #[cfg(not(feature = "encoding"))]
         #[inline]
-        $($async)? fn remove_utf8_bom(&mut self) -> io::Result<()> {
+        $($async)? fn remove_utf8_bom(&mut self, position: &mut u64) -> io::Result<()> {
             use crate::encoding::UTF8_BOM;
 
             loop {
@@ -24,6 +24,7 @@ macro_rules! impl_buffered_source {
                     Ok(n) => {
                         if n.starts_with(UTF8_BOM) {
                             self $(.$reader)? .consume(UTF8_BOM.len());
+                            *position += UTF8_BOM.len() as u64;
                         }
                         Ok(())
                     },
@@ -35,11 +36,12 @@ macro_rules! impl_buffered_source {
 
         #[cfg(feature = "encoding")]
         #[inline]
-        $($async)? fn detect_encoding(&mut self) -> io::Result<Option<&'static encoding_rs::Encoding>> {
+        $($async)? fn detect_encoding(&mut self, position: &mut u64) -> io::Result<Option<&'static encoding_rs::Encoding>> {
             loop {
                 break match self $(.$reader)? .fill_buf() $(.$await)? {
                     Ok(n) => if let Some((enc, bom_len)) = crate::encoding::detect_encoding(n) {
                         self $(.$reader)? .consume(bom_len);
+                        *position += bom_len as u64;
                         Ok(Some(enc))
                     } else {
                         Ok(None)
